@@ -1,4 +1,5 @@
 /* Correspondence harness for persistent storage (C10, C11). */
+#define HARNESS_NOISE
 #include "common.h"
 
 #include <ufw/crc/crc16-arc.h>
@@ -96,6 +97,33 @@ view(PersistentAccess a, const unsigned char *data, size_t dn, bool with_data)
         if (with_data) { printf(" data="); print_hex(data, a == PERSISTENT_ACCESS_SUCCESS ? dn : 0); }
         if (v == 0) printf(" log=%s ## ", loglen ? logbuf : "-");
         else { printf(" medium="); print_hex(medium, msize); printf(" inregion=%s", in_region ? "true" : "false"); }
+    }
+}
+
+/* a second store on a medium of its own, used between the operations on the store under test */
+static unsigned char smed[48];
+static size_t smed_read(void *dst, uint32_t addr, size_t n) { if (addr + n > sizeof smed) return 0; memcpy(dst, smed + addr, n); return n; }
+static size_t smed_write(uint32_t addr, const void *src, size_t n) { if (addr + n > sizeof smed) return 0; memcpy(smed + addr, src, n); return n; }
+static uint32_t sh_sum32(const unsigned char *d, size_t n, uint32_t init) { for (size_t i = 0; i < n; i++) init = init * 33u + d[i]; return init; }
+
+static void
+harness_noise(void)
+{
+    static PersistentStorage sh;
+    static unsigned k;
+    static unsigned char aux[5];
+    unsigned char data[9] = { 9, 8, 7, 6, 5, 4, 3, 2, (unsigned char)k };
+    if (k % 7 == 0) {
+        persistent_init(&sh, 9, smed_read, smed_write);
+        persistent_place(&sh, 3);
+        if (k % 2) persistent_sum32(&sh, sh_sum32, 0xffff0001u);
+        if (k % 3 == 0) persistent_buffer(&sh, aux, sizeof aux);
+    }
+    switch (k++ % 4) {
+    case 0: (void)persistent_store(&sh, data); break;
+    case 1: (void)persistent_validate(&sh); break;
+    case 2: (void)persistent_store_part(&sh, data, 2, 3); break;
+    default: (void)persistent_fetch(data, &sh); break;
     }
 }
 
